@@ -3,7 +3,9 @@
 case = {'family': 'retr', 'config': {'k_list', 'input_type', 'split'},
         'input': {'y_true', 'y_pred'}}
        k_list: any order, duplicates allowed; rows may be empty (config
-       'empty_rows' marks the cases generated for that input class)
+       'empty_rows' marks the cases generated for that input class); y_pred rows
+       may repeat an id (config 'repeated_ids'; the input class itself is always
+       recomputed from the literal rows)
 case = {'family': 'thr', 'config': {'thresholds', 'split', 'prob_dtype', 'mode'},
         'input': {'y_true', 'y_pred', 'y_prob' | None}}
        prob_dtype: 'list' (python floats) | 'float64' | 'float32' (one array per row)
@@ -18,6 +20,11 @@ KLIST_ORDER = 'retrieval-klist-result-order'
 EMPTY_NAN = 'retrieval-empty-row-nan'
 EMPTY_ALONE = 'retrieval-empty-row-alone-raises'
 THR_TIE = 'thresholded-retrieval-float32-threshold-equality'
+# Input class "a ranking repeats a relevant id within the evaluated top-k":
+# REPEAT_HITS when the RANGE law is broken (a rate outside [0, 1]), REPEAT_VALUE
+# when the value stays in range and only differs from the set-based definition.
+REPEAT_HITS = 'retrieval-repeated-prediction-counted-as-several-hits'
+REPEAT_VALUE = 'retrieval-repeated-prediction-value-convention'
 
 # Row formulas that divide by the number of predictions / of true labels.
 _PRED_DEN = ('precision', 'ppv', 'positive_predictive_value', 'f1_score',
@@ -32,8 +39,20 @@ def _displaced(k_list, j):
       k_list[j] != sorted(k_list)[j])
 
 
-def _mechanism(config, metric, rows_t, rows_p, k_index, ks):
-  """Input-class key of a value mismatch (never data dependent beyond shape)."""
+def _outside_unit_range(metric, got):
+  """A finite reported rate outside [0, 1] (dcg_score has no upper bound)."""
+  if metric == 'dcg_score' or got is None:
+    return False
+  try:
+    g = float(got)
+  except Exception:  # pylint: disable=broad-exception-caught
+    return False
+  return g == g and not -1e-12 <= g <= 1 + 1e-12
+
+
+def _mechanism(config, metric, rows_t, rows_p, k_index, ks, got=None):
+  """Input-class key of a value mismatch (never data dependent beyond shape;
+  for the repeated-id class `got` only tells which law is broken: range / value)."""
   if config.get('odd_labels'):
     return 'retrieval-multiclass-labels-iterated'
   empty = ((metric in _PRED_DEN and any(len(p) == 0 for p in rows_p)) or
@@ -58,6 +77,10 @@ def _mechanism(config, metric, rows_t, rows_p, k_index, ks):
       # a ranking shorter than k: the library counts k - len(y_pred) phantom
       # false positives.
       return 'retrieval-threat-score-uses-k'
+  if any(orc.repeated_hit_within(rows_t, rows_p, k) for k in cands):
+    # some ranking repeats a relevant id within the top-k this position was
+    # evaluated at (rows without such a repetition cannot be affected)
+    return REPEAT_HITS if _outside_unit_range(metric, got) else REPEAT_VALUE
   if empty:
     return EMPTY_NAN
   if ks[0] is not None and _displaced(ks, k_index):
@@ -84,6 +107,12 @@ def check_topk(ctx, case):
   ctx.count('retr_cases')
   if has_empty:
     ctx.count('retr_empty_row_cases')
+  if orc.has_repeated_id(rows_p):
+    ctx.count('retr_repeated_id_cases')
+    if orc.repeated_hit_within(rows_t, rows_p, None):
+      ctx.count('retr_repeated_relevant_id_cases')
+    else:
+      ctx.count('retr_repeated_irrelevant_id_cases')
   if k_list and k_list != sorted(set(k_list)):
     ctx.count('retr_unordered_klist_cases')
   metrics = list(orc.METRICS)
@@ -106,7 +135,7 @@ def check_topk(ctx, case):
           ok = cm.close(g, alt[name][j])  # 1 - rate reading of an empty row
         if not ok:
           mis.add('value_mismatch',
-                  _mechanism(config, name, rows_t, rows_p, j, ks),
+                  _mechanism(config, name, rows_t, rows_p, j, ks, got=g),
                   {'metric': name, 'k': ks[j], 'k_list': k_list, 'path': path,
                    'got': g, 'want': w})
     for group in orc.ALIASES:
@@ -128,8 +157,14 @@ def check_topk(ctx, case):
         ctx.count('retr_range_checks')
         a = np.asarray(res[name], dtype=float)
         if not bool(np.all((a >= -1e-12) & (a <= 1 + 1e-12))):
-          mis.add('out_of_range', _mechanism(config, name, rows_t, rows_p, None, [None]),
-                  {'metric': name, 'got': res[name]})
+          mech = _mechanism(config, name, rows_t, rows_p, None, [None])
+          if (not config.get('odd_labels')
+              and any(_outside_unit_range(name, v) for v in a.ravel().tolist())
+              and orc.repeated_hit_within(rows_t, rows_p, None)):
+            # a finite rate outside [0, 1] on rankings that repeat a relevant id
+            # (NaN of an empty row keeps its own key)
+            mech = REPEAT_HITS
+          mis.add('out_of_range', mech, {'metric': name, 'path': path, 'got': res[name]})
 
   def all_empty_pred(rows):
     return len(rows) > 0 and all(len(r) == 0 for r in rows)
